@@ -11,6 +11,7 @@ After EVERY step, with the seams suspended:
 Identity rule: a returned object that `is` a live object is that object, not a new result.
 """
 import copy
+import os
 
 from . import env
 import numpy as np
@@ -1550,8 +1551,9 @@ GROUPS = ("ctor", "algebra", "inplace", "solver", "ode", "data")
 # ====================================================================== generation
 def swarm_config(seed, faults):
     rnd = Streams(seed).py("config")
-    d = rnd.choice((1, 2, 2, 3, 3, 3, 4))
-    sizes = rnd.choice(((1, 2, 3), (2, 3), (1, 2), (2,), (2, 2, 4), (1, 1, 2)))
+    deep = os.environ.get("SIMTT_TIER") == "thorough"   # deeper bounds in the thorough tier (set by the runner)
+    d = rnd.choice((1, 2, 2, 3, 3, 3, 4, 5) if deep else (1, 2, 2, 3, 3, 3, 4))
+    sizes = rnd.choice(((1, 2, 3), (2, 3), (1, 2), (2,), (2, 2, 4), (1, 1, 2)) + (((2, 3, 5), (1, 4)) if deep else ()))
     dims = [rnd.choice(sizes) for _ in range(d)]
     if rnd.random() < 0.25:
         dims = [dims[0]] * d
@@ -1568,7 +1570,7 @@ def swarm_config(seed, faults):
         "p_one": rnd.choice((0.2, 0.4, 0.7)),
         "layouts": rnd.choice((["C"], ["C"], ["C"], ["C", "T"], list(gen.LAYOUTS))),
         "cplx_p": rnd.choice((0.0, 0.0, 0.3, 1.0)),
-        "length": rnd.choice((3, 5, 8, 12, 20, 40)),
+        "length": rnd.choice((3, 5, 8, 12, 20, 40, 70) if deep else (3, 5, 8, 12, 20, 40)),
         "groups": groups,
         "directed_p": rnd.choice((0.0, 0.3, 0.5, 0.8)),
         "repeat_p": rnd.choice((0.0, 0.1, 0.1, 0.3)),
